@@ -384,8 +384,12 @@ Proof. unfold close_ix_if. destruct (oget (ixes s) ca); reflexivity. Qed.
 Lemma ok_cxes_body s ca c : oget (cxes s) ca = Some c -> ok_step s (fst (cxes_body s ca c)).
 Proof.
   intros Hg. unfold cxes_body. destruct (c_id c) as [i|] eqn:Hi; [|apply ok_refl].
-  destruct (c_hs c) as [|[] h]; cbn [fst]; try apply ok_refl.
-  - eapply ok_upd_same_id_cx; [exact Hg|]. now rewrite Hi.
+  destruct (c_hs c) as [|o h]; [apply ok_refl|].
+  assert (Hdel : ok_step s (add_closed (set_cxes s (odel (cxes s) ca)) [i])).
+  { pose proof (ok_del_close_cx s ca c Hg) as H. rewrite Hi in H. exact H. }
+  assert (Hwant : ok_step s (set_cxes s (oupd (cxes s) ca {| c_id := Some i; c_cut := c_cut c; c_hs := h |}))).
+  { eapply ok_upd_same_id_cx; [exact Hg|]. now rewrite Hi. }
+  destruct o; cbn [fst]; try exact Hdel; try exact Hwant.
   - rewrite close_ix_if_set_cxes. cbn [ixes set_cxes set_ixes].
     eapply ok_trans; [apply (ok_close_ix_if s ca)|].
     replace (set_ixes (set_cxes (close_ix_if s ca) (odel (cxes s) ca)) _)
@@ -394,9 +398,6 @@ Proof.
     2:{ rewrite cxes_close_ix_if. unfold close_ix_if. destruct (oget (ixes s) ca); reflexivity. }
     eapply ok_promote; [rewrite cxes_close_ix_if; exact Hg|exact Hi|reflexivity|].
     apply closed_ix_after_close_if.
-  - pose proof (ok_del_close_cx s ca c Hg) as H. rewrite Hi in H. exact H.
-  - pose proof (ok_del_close_cx s ca c Hg) as H. rewrite Hi in H. exact H.
-  - pose proof (ok_del_close_cx s ca c Hg) as H. rewrite Hi in H. exact H.
   - (* unexpected exception: closed, stays in cxes *)
     apply ok_same_opened; [reflexivity| |].
     + intros j H. cbn. rewrite in_app_iff. tauto.
